@@ -215,4 +215,12 @@ def rule_plugin_folder_is_not_a_pattern(ctx):
                 ctx.res.ok("O20.4", what, True)
 
 
-RULES = [rule_hook_protocol, rule_row_protocol, rule_run_protocol, rule_class_resolution, rule_plugin_folder_is_not_a_pattern, rule_undefined_attributes, rule_module_state]
+def rule_every_run_is_closed(ctx):
+    """O20.5: "asked for its end-of-data verdict once ... when the run is closed, after which every check is cleaned up":
+    every Reader / Writer the package itself creates (command line, rows(), validate(), GUI) is closed on every path."""
+    from . import protocol
+
+    protocol.rule_validators_are_closed(ctx, "O20.5")
+
+
+RULES = [rule_hook_protocol, rule_row_protocol, rule_run_protocol, rule_class_resolution, rule_plugin_folder_is_not_a_pattern, rule_every_run_is_closed, rule_undefined_attributes, rule_module_state]
